@@ -14,6 +14,7 @@ CrcOK(ev) == /\ ev.sum = Crc64(ev.msg)
 EventOK(ev) == CASE ev.e = "crc"   -> CrcOK(ev)
                  [] ev.e = "ref"   -> ev.sum = Crc64(ev.msg)
                  [] ev.e = "bigcrc" -> ev.ok          \* long messages / large single writes: register = the lifted reference after every write
+                 [] ev.e = "conc"  -> ev.bad = 0 /\ ev.payloads = ev.expected   \* several loaders at once: every payload trailer verifies
                  [] ev.e = "fault" -> (IF ev.accepted THEN "accept" ELSE "reject") = Expected(ev.verifier, ev.class)
                  [] ev.e = "note"  -> TRUE
 TInit == l = 1 /\ bad = 0
